@@ -46,6 +46,9 @@ def c06(ctx):
         twin = G.run_server_case(no_strict=rp.get('no_strict', False))
         r = G.run_server_case(rp['phase'], rp['type'], body,
                               no_strict=rp.get('no_strict', False))
+    elif rp['kind'] == 'server-auth':
+        twin = G.run_server_auth_case()
+        r = G.run_server_auth_case(rp['phase'], rp['type'], body)
     elif rp['kind'] == 'server-clear':
         twin = G.run_server_case(no_strict=not rp['strict'])
         r = G.run_server_case(None, no_strict=not rp['strict'],
